@@ -73,7 +73,9 @@ fn convert_to_ntp(ts: Timestamp) -> NtpTimestamp {
 }
 
 // FIXME: Remove this once we have more proper time abstractions.
-fn add_correction(ts: Timestamp, correction: TimeInterval) -> Timestamp {
+//
+// Returns `None` when the corrected time is not representable as a PTP timestamp.
+fn add_correction(ts: Timestamp, correction: TimeInterval) -> Option<Timestamp> {
     let correction_nanos = correction.0 >> 16;
     let correction_seconds = correction_nanos.div_euclid(1_000_000_000);
     let correction_nanos = correction_nanos.rem_euclid(1_000_000_000);
@@ -86,12 +88,11 @@ fn add_correction(ts: Timestamp, correction: TimeInterval) -> Timestamp {
 
     let corrected_seconds = ts
         .seconds()
-        .wrapping_add_signed(correction_seconds)
-        .wrapping_add(intermediate_nanos.div_euclid(1_000_000_000).into());
+        .checked_add_signed(correction_seconds)?
+        .checked_add(intermediate_nanos.div_euclid(1_000_000_000).into())?;
     let corrected_nanos = intermediate_nanos.rem_euclid(1_000_000_000);
 
-    Timestamp::new(corrected_seconds, corrected_nanos)
-        .expect("Calculated nanoseconds should be between 0 and 1_000_000_000")
+    Timestamp::new(corrected_seconds, corrected_nanos).ok()
 }
 
 impl<'a, Mutex, Controller> CsptpSource<'a, Mutex, Controller> {
@@ -185,14 +186,25 @@ impl<Mutex: StateMutex, Controller: SourceController> CsptpSource<'_, Mutex, Con
                     continue;
                 };
 
+                // Ignore responses whose corrected timestamps are not representable.
+                let (Some(request_send_time), Some(response_send_time)) = (
+                    add_correction(
+                        measurement.request_send_time,
+                        measurement.request_correction,
+                    ),
+                    add_correction(
+                        measurement.response_send_time,
+                        measurement.response_correction,
+                    ),
+                ) else {
+                    continue;
+                };
+
                 self.controller.set_usable(true);
                 self.controller.handle_measurement(Measurement {
                     sender_id: self.local_clock,
                     receiver_id: self.remote_clock,
-                    sender_ts: convert_to_ntp(add_correction(
-                        measurement.request_send_time,
-                        measurement.request_correction,
-                    )),
+                    sender_ts: convert_to_ntp(request_send_time),
                     receiver_ts: convert_to_ntp(measurement.request_recv_time),
                     root_delay: NtpDuration::ZERO,
                     root_dispersion: NtpDuration::ZERO,
@@ -202,10 +214,7 @@ impl<Mutex: StateMutex, Controller: SourceController> CsptpSource<'_, Mutex, Con
                 self.controller.handle_measurement(Measurement {
                     sender_id: self.remote_clock,
                     receiver_id: self.local_clock,
-                    sender_ts: convert_to_ntp(add_correction(
-                        measurement.response_send_time,
-                        measurement.response_correction,
-                    )),
+                    sender_ts: convert_to_ntp(response_send_time),
                     receiver_ts: convert_to_ntp(measurement.response_recv_time),
                     root_delay: NtpDuration::ZERO,
                     root_dispersion: NtpDuration::ZERO,
